@@ -1086,6 +1086,33 @@ func (c *Ctx) sendEffects(st *State, fr *Frame, ins ssa.Instruction, ch Term, bl
 	c.SetArr(st, famChLen, Store(ln, ch, T(SInt, "(+ %s 1)", Select(ln, ch).S)))
 }
 
+// semaphorePermit: a receive from the channel declared `opt semaphore <chan>` - in a select arm as
+// much as a blocking one - takes a slot out. A goroutine that put none in (holds no permit) would take
+// the slot of another holder: the bound "at most cap(sem) holders" is gone.
+func (c *Ctx) semaphorePermit(st *State, fr *Frame, ins ssa.Instruction, ch Term) {
+	if c.cur == nil || c.cur.contract == nil || c.cur.contract.Opts["semaphore"] == "" {
+		return
+	}
+	if _, isCtx := st.ctxDoneChans[ch.S]; isCtx {
+		return // the Done() channel of a context is not the semaphore
+	}
+	e, err := ParseSpecExpr(c.cur.contract.Opts["semaphore"])
+	if err != nil {
+		return
+	}
+	env := c.envForFrame(st, fr)
+	savedErrs := len(c.Errors)
+	if sv, err := c.evalSpec(env, e); err == nil {
+		sn := Select(c.Arr(st, "SentNow", ArraySort(SInt, SBool)), ch)
+		goal := sn
+		if sv.t.S != ch.S {
+			goal = Or(Not(Eq(ch, sv.t)), sn)
+		}
+		c.Oblige(st, fr, ins, "permit", "recv-takes-only-its-own-slot", goal, "a receive from the semaphore is made only by a goroutine that acquired a slot (sent on it) before")
+	}
+	c.Errors = c.Errors[:savedErrs]
+}
+
 func (c *Ctx) doRecv(st *State, fr *Frame, x *ssa.UnOp) []cont {
 	ch := c.term(fr, x.X, st)
 	el := x.X.Type().Underlying().(*types.Chan).Elem()
@@ -1108,6 +1135,7 @@ func (c *Ctx) doRecv(st *State, fr *Frame, x *ssa.UnOp) []cont {
 			c.Errors = c.Errors[:savedErrs]
 		}
 	}
+	c.semaphorePermit(st, fr, x, ch)
 	v, ok := c.recvEffects(st, ch, el)
 	c.assumeChanInv(st, ch, v, ok, el)
 	if x.CommaOk {
@@ -1208,6 +1236,7 @@ func (c *Ctx) doSelect(st *State, fr *Frame, x *ssa.Select) []cont {
 			mk(s, f, i, False, nil)
 		} else {
 			el := ss.Chan.Type().Underlying().(*types.Chan).Elem()
+			c.semaphorePermit(s, f, x, ch)
 			v, ok := c.recvEffects(s, ch, el)
 			c.assumeChanInv(s, ch, v, ok, el)
 			if ci, isCtx := s.ctxDoneChans[ch.S]; isCtx {
